@@ -171,6 +171,11 @@ def ch1_arm_purity(ctx, rep, arms=("BlockOnFull", "DropOldest", "DropLatest")):
             rep.check(not bad, R, "drop-arm-never-blocks:%s:%s" % (pol0, short(b.path)), ctx.where(b, ops[0].bb) if ops else ctx.where(b),
                       "%s path [%s]: only non-blocking queue operations" % (pol0, p.describe()),
                       "%s path [%s] performs %s, which may block" % (pol0, p.describe(), [n.split("::")[-1] for n in bad]))
+            if pol0 == "DropLatest":
+                deq = [e for e in ops if e.ck in CB_TRYRECV or e.ck in CB_DEQUEUE]
+                rep.check(not deq, R, "drop-latest-never-dequeues:" + short(b.path), ctx.where(b, deq[0].bb) if deq else ctx.where(b),
+                          "DropLatest path [%s] removes nothing from the queue" % p.describe(),
+                          "DropLatest path [%s] takes an item out of the queue: an already queued action is discarded although the policy names the new one" % p.describe())
     for a in arms:
         rep.check(a in seen, R, "arm-present:%s" % a, ctx.where(b), "policy arm %s enumerated" % a, "no path for policy %s" % a)
 
@@ -309,6 +314,19 @@ def ch4_retry_identity(ctx, rep):
         v = _variant_of(p, ("vfield", first.result, "Err", 0))
         rep.check(v == "Full", R, "pop-only-when-full:" + key, ctx.where(b, pops[0].bb), "head popped only after Err(Full)", "head popped after outcome %s" % v)
     rep.floor(R, "DropOldest full-queue paths", n, 2)
+    # under every policy: whatever the wrapper puts into the queue is the caller's item (or the
+    # very item that just bounced) - nothing kept from an earlier call re-enters behind later ones
+    m = 0
+    for p in feas + rfail:
+        pol = (_policy_of(p) or "?").lstrip("*")
+        sends = [e for e in p.calls() if e.ck.startswith(CB + "Sender::") and e.ck.split("::")[-1] in ("send", "try_send", "send_timeout", "send_deadline")]
+        for i, e in enumerate(sends):
+            m += 1
+            a = strip_wrap(e.args[1]) if len(e.args) > 1 else ("opaque", "?")
+            bounced = any(a == ("vfield", ("vfield", q.result, "Err", 0), "Full", 0) or a == ("field", ("vfield", q.result, "Err", 0), 0) for q in sends[:i])
+            rep.check(a == ("param", 2) or bounced, R, "enqueues-only-its-argument:%s:%s" % (pol, short(b.path)), ctx.where(b, e.bb),
+                      "%s path enqueues the caller's item" % pol, "%s path [%s] enqueues %s, which is not the item of this call: an item kept from an earlier call re-enters the queue behind later ones" % (pol, p.describe(), term_str(e.args[1]) if len(e.args) > 1 else "?"))
+    rep.floor(R, "enqueue operations on the wrapper's paths", m, 4)
 
 
 def ch5_capacity(ctx, rep):
